@@ -270,6 +270,31 @@ def sampling(tier, rng, rep):
                 if not np.all(np.abs(R.proj_data[idx] - u.proj_data) <= 1e-9) or not np.all(np.abs(R.aux_data[idx] - u.aux_data) <= 1e-9):
                     rep.fail("pairwise_entries", f"index {idx}", inp)
             rep.case(key=(t, mode), nontrivial=(len(outer) >= 2 or 1 in outer), sample=inp if t == 0 else None)
+        # flattening / reshaping / indexing do not depend on the memory layout of the array the object was built from
+        # (C-contiguous, Fortran-contiguous, a transposed view, a strided slice)
+        shp2 = tuple(int(x) for x in rng.integers(2, 4, size=2 + t % 2))
+        base = rng.normal(size=shp2 + (4, n + 1))
+        layouts = {"c": base.copy(), "fortran": np.asfortranarray(base), "strided": np.repeat(base, 2, axis=0)[::2],
+                   "transposed_view": np.ascontiguousarray(np.moveaxis(base, 0, -1)).transpose((len(shp2) + 1,) + tuple(range(len(shp2) + 1)))}
+        for lname, arr in layouts.items():
+            inp = {"layout": lname, "shape": list(shp2), "n": n}
+
+            def lay():
+                if arr.shape != base.shape or not np.array_equal(arr, base):
+                    raise AssertionError("layout construction of the test itself")
+                P_ = pr.Polygon(arr)
+                F_ = P_.flatten_to_unit()
+                for k_, idx in enumerate(np.ndindex(*shp2)):
+                    u = pr.Polygon(base[idx].copy())
+                    if not np.array_equal(F_.proj_data[k_], u.proj_data) or not np.all(np.abs(F_.aux_data[k_] - u.aux_data) <= 1e-12):
+                        rep.fail("flatten_preserves_units_and_order", f"layout {lname}: flattened unit {k_} is not unit {idx}", inp); return
+                    if not np.array_equal(P_[idx].proj_data, u.proj_data):
+                        rep.fail("index_preserves_units", f"layout {lname}: unit {idx}", inp); return
+                R_ = P_.reshape((int(np.prod(shp2)),))
+                if not np.array_equal(R_.proj_data, F_.proj_data):
+                    rep.fail("reshape_preserves_units_and_order", f"layout {lname}", inp); return
+            rep.attempt("restructure_runs", inp, lay)
+            rep.case(key=(t, "layout", lname), nontrivial=lname != "c")
         # circle parameters (centre, radius, angle pair) of a composite of segments vs unit by unit, both conformal models
         kk = int(rng.integers(2, 6))
 
